@@ -14,7 +14,7 @@ import os
 
 from vlib.common import Check, rng, run_case, pmap, workdir, cleanup, short
 
-HANG_S = 6.0
+HANG_S = 10.0
 
 
 def fake_case(spec, log):
